@@ -710,6 +710,16 @@ m("poolreset-refactor-reset-first", "ORD-POOLRESET", ["C18"], "refactor", MS,
   "the buffer is reset when it is taken out, before anything is written",
   more=[("\t\"sort\"\n\t\"time\"\n)\n", "\t\"sort\"\n\t\"sync\"\n\t\"time\"\n)\n\nvar marshalBuffers = sync.Pool{New: func() interface{} { return &bytes.Buffer{} }}\n")])
 
+
+m("skiparms-lob-skipped-as-braces", "TAB-SKIPARMS", ["C08"], "break", SK,
+  "\t\t\tif c == '{' {\n\t\t\t\tif _, err := t.read(); err != nil {\n\t\t\t\t\treturn err\n\t\t\t\t}\n\t\t\t\tif err := t.skipBlobHelper(); err != nil {\n\t\t\t\t\treturn err\n\t\t\t\t}\n\t\t\t} else if c == '}' {", "\t\t\tif c == '}' {", "skipBlobHelper", True,
+  "a blob whose base64 text contains // swallows the rest of the line when its container is skipped (seeded change C08-r5-1)")
+
+
+m("impadjust-exact-match-returned-as-found", "ORD-IMPADJUST", ["C09", "C10"], "break", RL,
+  "\t} else {\n\t\timp = imp.Adjust(uint64(maxID))\n\t}", "\t} else if imp.Version() != version || uint64(maxID) < imp.MaxID() {\n\t\timp = imp.Adjust(uint64(maxID))\n\t}", "import returned", True,
+  "an exact catalog match declared with a larger max_id is not padded: later imports and locals get lower IDs (seeded change C09-r5-2)")
+
 os.makedirs(os.path.dirname(os.path.abspath(__file__)), exist_ok=True)
 with open(os.path.join(os.path.dirname(os.path.abspath(__file__)), "core.json"), "w") as f:
     json.dump(M, f, indent=1)
